@@ -521,10 +521,10 @@ example : twSquaredError (wRect 1 2) [1, 2] 3 0 = 3 := by
     for f a polynomial of degree ≤ 3 on each open cell (bridge to Mathlib's intervalIntegral; until then "Milne's rule is
     exact for cubics and integrals are additive" is a trusted mathematical fact).
 
-  theorem endpoint_replacement_model_trap_stmt : the analogue of `endpoint_replacement_model_rect` for `Model.TW.auxTrap`
-    (four replaced lists; b′ from min(data, c) − 1, a′ from b′.min − 1, c′ from max(data, b′) + 1, d′ from c′.max + 1) — the
-    ingredients `aux_rect_left_replacement` / `aux_rect_right_replacement` are proved, the assembly is not; covered by the
-    differential harness.
+  (`endpoint_replacement_model_trap` — the analogue of `endpoint_replacement_model_rect` for `Model.TW.auxTrap`, with the
+    conclusion strengthened to "all five scores = the integrals against the true weight, at every position of mixed
+    finite / infinite end-point arrays" — is PROVED in Props/C10Model.lean, together with the rectangular version
+    `endpoint_replacement_model_rect_sound` and the counterexample for infinite data.)
 -/
 
 end SV.Props.C10
